@@ -34,8 +34,15 @@ fn case(src: &mut Src, ctx: &mut Ctx) -> Result<(), Fail> {
             let faults_over = w.stats.frames[0] >= w.cfg.link.fault_frames && w.stats.frames[1] >= w.cfg.link.fault_frames;
             if faults_over && idle > 1800 * 1_000_000 && end == End::TimeCap {
                 let st = w.describe_state();
+                let ign = w.acks_ignored();
+                let key = match ign {
+                    [true, true] => "livelock:acks-ignored:both-directions".to_string(),
+                    [true, false] => format!("livelock:acks-ignored:by-{}", w.sock(0).state()),
+                    [false, true] => format!("livelock:acks-ignored:by-{}", w.sock(1).state()),
+                    _ => format!("livelock:other:{}/{}", w.sock(0).state(), w.sock(1).state()),
+                };
                 return Err(Fail::new(
-                    format!("livelock:{}/{}", w.sock(0).state(), w.sock(1).state()),
+                    key,
                     format!("events keep firing but no application-level progress for {} s after the link became reliable: {}", idle / 1_000_000, st),
                 ));
             }
